@@ -60,7 +60,9 @@ func (gi *gitlabImporter) ImportAll(ctx context.Context, repo *cache.RepoCache, 
 	go func() {
 		defer close(out)
 
-		for issue := range Issues(ctx, gi.client, gi.conf[confKeyProjectID], since) {
+		issues, listingError := Issues(ctx, gi.client, gi.conf[confKeyProjectID], since)
+
+		for issue := range issues {
 
 			b, err := gi.ensureIssue(repo, issue)
 			if err != nil {
@@ -94,6 +96,12 @@ func (gi *gitlabImporter) ImportAll(ctx context.Context, repo *cache.RepoCache, 
 				out <- core.NewImportError(err, "")
 				return
 			}
+		}
+
+		// an issue listing that failed must be reported, otherwise the import
+		// looks complete and the time of the last import is moved forward
+		if err := listingError(); err != nil {
+			out <- core.NewImportError(fmt.Errorf("issue listing: %v", err), "")
 		}
 	}()
 
